@@ -161,6 +161,8 @@ type World struct {
 	// OfferDelay, if set, gives an extra delay for the offer of one agent in one round (its
 	// offer then arrives in a separate OFFERS event): agents are not offered in lock step.
 	OfferDelay func(a *Agent) time.Duration
+	// HoldTerminalUpdates delays terminal status updates (the master retrying them much later)
+	HoldTerminalUpdates time.Duration
 }
 
 func NewWorld(s *simrt.Sim) *World {
@@ -676,6 +678,7 @@ func (w *World) terminate(t *SimTask, st mesos.TaskState, msg string, after time
 	}
 	t.terminalSent = true
 	w.mu.Unlock()
+	after += w.HoldTerminalUpdates
 	w.S.Go("mesos-terminate", func() {
 		if after > 0 {
 			simrt.Sleep(after)
@@ -702,7 +705,19 @@ func (w *World) kill(id string, lg *CallLog) {
 	lg.Tasks = []string{id}
 	t := w.Tasks[id]
 	if t == nil || terminal(t.Mesos) {
+		// the master does not know the task (any more): it answers with a TASK_LOST update
+		// (reason RECONCILIATION, source MASTER), as Master::kill does for unknown tasks
+		agentID := ""
+		if t != nil && t.Agent != nil {
+			agentID = t.Agent.ID
+		}
 		w.mu.Unlock()
+		st, r, src := mesos.TASK_LOST, mesos.REASON_RECONCILIATION, mesos.SOURCE_MASTER
+		s := mesos.TaskStatus{TaskID: mesos.TaskID{Value: id}, State: &st, Reason: &r, Source: &src, UUID: []byte{}}
+		if agentID != "" {
+			s.AgentID = &mesos.AgentID{Value: agentID}
+		}
+		w.emitAfter("status", 20*time.Millisecond, &scheduler.Event{Type: scheduler.Event_UPDATE, Update: &scheduler.Event_Update{Status: s}})
 		return
 	}
 	t.Killed = true
